@@ -88,6 +88,8 @@ impl CsrSegment {
     }
 
     pub fn persist(&mut self, pager: &mut Pager) -> Result<()> {
+        #[cfg(luqing_studio_nervusdb_verif)]
+        let _verif_owner = nervusdb_api::verif_hooks::owner_scope("csr");
         // Build reverse index if we have edges but no reverse index
         if !self.edges.is_empty() && self.in_edges.is_empty() {
             let mut edges_with_src: Vec<EdgeKey> = self
